@@ -592,6 +592,45 @@ let ccrash_line line =
       (if st = [] then "-" else String.concat "," (List.map (function Some b -> hex_of_zl b | None -> "~") st))
   | _ -> ()
 
+(* ---------------- bisync step lists and crash states (C08) ---------------- *)
+let side_str = function SA -> "A" | SB -> "B"
+let fstep_str = function
+  | FStage (sd, q) -> "Stage:" ^ side_str sd ^ ":" ^ hex_of_zl q
+  | FData (sd, q, _) -> "Data:" ^ side_str sd ^ ":" ^ hex_of_zl q
+  | FSync (sd, q) -> "Sync:" ^ side_str sd ^ ":" ^ hex_of_zl q
+  | FRename (sd, q) -> "Rename:" ^ side_str sd ^ ":" ^ hex_of_zl q
+  | FUnlink (sd, q) -> "Unlink:" ^ side_str sd ^ ":" ^ hex_of_zl q
+  | FArchStage -> "ArchStage" | FArchWrite _ -> "ArchWrite" | FArchSync -> "ArchSync" | FArchBak -> "ArchBak"
+  | FArchRename -> "ArchRename" | FArchDirSync -> "ArchDirSync"
+(* `<id> T=.. HOST=.. A=<tree> B=<tree> Z=<none|p:digesthex;..|-> AE=<0|1> K=<k|all>` *)
+let cbicrash_line line =
+  match split_ws line with
+  | id :: fields ->
+    let tbl = ref [] and host = ref [] and a = ref [] and b = ref [] and z = ref None and ae = ref false and k = ref "all" in
+    let tree v = if v = "-" then [] else List.map (fun e -> match String.split_on_char ':' e with
+        | [p; c] -> (zl_of_hex p, zl_of_hex c) | _ -> failwith "bad tree") (split_on ';' v) in
+    List.iter (fun f ->
+      let (kk, v) = kv_of f in
+      if kk = "T" then tbl := List.map (fun e -> match String.split_on_char ':' e with
+          | [c; d] -> (zl_of_hex c, zl_of_hex d) | _ -> failwith "bad T") (split_on ';' v)
+      else if kk = "HOST" then host := zl_of_hex v
+      else if kk = "A" then a := tree v else if kk = "B" then b := tree v
+      else if kk = "Z" then z := (if v = "none" then None else Some (tree v))
+      else if kk = "AE" then ae := (v = "1") else if kk = "K" then k := v) fields;
+    let s = bi_state !a !b !z in
+    if !k = "all" then begin
+      let st = bi_steps !tbl !host s !ae in
+      Printf.printf "%s STEPS=%s\n" id (if st = [] then "-" else String.concat "," (List.map fstep_str st))
+    end else begin
+      let ((((fa, fb), ga), gb), fz) = bi_crash !tbl !host s !ae (nat_of_int (int_of_string !k)) in
+      let keys l = let l = List.sort compare (List.map (fun (p, _) -> hex_of_zl p) l) in if l = [] then "-" else String.concat "," l in
+      Printf.printf "%s A=%s;B=%s;GA=%s;GB=%s;Z=%s\n" id (tree_str fa) (tree_str fb) (keys ga) (keys gb)
+        (match fz with None -> "none" | Some l ->
+           let l = List.sort compare (List.map (fun (p, d) -> (hex_of_zl p, hex12_of d)) l) in
+           if l = [] then "-" else String.concat "," (List.map (fun (p, d) -> p ^ "=" ^ d) l))
+    end
+  | _ -> ()
+
 let () =
   match Array.to_list Sys.argv with
   | _ :: "c17" :: file :: _ -> iter_lines file (c17_line false)
@@ -607,6 +646,7 @@ let () =
   | _ :: "coneway" :: file :: _ -> iter_lines file coneway_line
   | _ :: "cquote" :: file :: _ -> iter_lines file cquote_line
   | _ :: "ccrash" :: file :: _ -> iter_lines file ccrash_line
+  | _ :: "cbicrash" :: file :: _ -> iter_lines file cbicrash_line
   | _ :: "crefuse" :: file :: _ -> iter_lines file (fun line -> match split_ws line with
       | id :: p :: _ -> Printf.printf "%s %s\n" id (if refused (zl_of_hex p) then "REFUSED" else "ACCEPTED")
       | _ -> ())
